@@ -12,6 +12,7 @@ from argparse import ArgumentParser
 import attr
 from werkzeug import test as werkzeug_test
 from werkzeug.utils import redirect
+from werkzeug.urls import url_quote
 from werkzeug.wrappers import Request, Response, BaseResponse
 
 from .server import run_simple
@@ -40,6 +41,11 @@ except NameError:
 
 
 _REQ_ID_ITER = itertools.count()
+
+# characters of a query string that are passed through as sent when it is
+# copied into a redirect; everything else (including raw non-ASCII bytes)
+# is percent-escaped
+_QUERY_SAFE = "%&=+/:;,?@!$'()*~[]"
 
 
 def cast_to_route_factory(in_arg):
@@ -302,7 +308,7 @@ class Application(object):
                 if norm_path != url_path:
                     if route.slash_mode == S_REDIRECT:
                         parts = [request.url_root.rstrip('/'),
-                                 norm_path, '?', request.query_string.decode('utf8')]
+                                 norm_path, '?', url_quote(request.query_string, safe=_QUERY_SAFE)]
                         return redirect(''.join(parts))  # TODO: error_handler
                     elif route.slash_mode == S_STRICT:
                         nf_exc = err_handler.not_found_type(request=request,
